@@ -34,6 +34,15 @@ Definition tx_priority (urls : list string) (ante : Z) : Z :=
 
 Definition min_value : Z := Gen.C19.min_value.
 
+(** specification side: the class (row of the table) a transaction falls in, if any *)
+Fixpoint prefix_index (tbl : list (string * Z)) (url : string) : option nat :=
+  match tbl with
+  | [] => None
+  | (pre, _) :: r => if String.prefix pre url then Some 0%nat else option_map S (prefix_index r url)
+  end.
+Definition tx_class (urls : list string) : option nat :=
+  match urls with [u] => prefix_index Gen.C19.priority_table u | _ => None end.
+
 (** ** Keys and the two orders *)
 
 Record key := mkKey { k_prio : Z; k_weight : Z; k_sender : Z; k_nonce : Z }.
